@@ -354,7 +354,14 @@ def callResp : Out → Option Resp
   | _ => none
 
 theorem download_off (s : Stack) (a : Nat) (r : Resp) (h : s.save = false) : download s a r = (r, []) := by
-  unfold download; split <;> simp [h]
+  have h1 : saveErr s a r = none := by unfold saveErr; split <;> simp [h]
+  have h2 : saved s a r = false := by simp [saved, h]
+  unfold download
+  split
+  · rfl
+  · split
+    · rfl
+    · rw [h1, h2]; simp
 
 theorem callResp_callDo (fx : Fixes) (s : Stack) (r : Resp) (h : callResp (run fx s) = some r) :
     (callDo fx s).resp = some r := by
